@@ -284,7 +284,7 @@ func (fx *FnExec) execLoop(li *loopInfo) {
 	// 1. invariants hold on entry
 	for _, inv := range lc.invs {
 		g := fx.evalSpecBool(inv.Expr, in, fx.old, li)
-		e.addObl("contract", fmt.Sprintf("loop%d:inv%s:entry", li.ord, inv.labelStr()), inv.Tags, in, g, li.header.Instrs[0].Pos())
+		e.addObl("contract", fmt.Sprintf("loop%d:inv%s:entry", li.ord, inv.labelStr()), fx.clauseTags(inv), in, g, li.header.Instrs[0].Pos())
 	}
 	// 2. discover what the body writes
 	tr := e.pushTrack()
@@ -359,6 +359,17 @@ func (fx *FnExec) execLoop(li *loopInfo) {
 	if li.idxAlloc != nil {
 		if cur, ok := st.locals[li.idxAlloc]; ok {
 			e.assume(st, "(>= "+cur[0]+" (- 1))")
+			// and stays below the (loop-invariant) length it is compared with
+			for _, in := range li.header.Instrs {
+				if bo, ok := in.(*ssa.BinOp); ok && bo.Op == token.LSS {
+					if lv, ok := st.regs[bo.Y]; ok && len(lv.L) == 1 {
+						e.assume(st, "(< "+cur[0]+" (ite (> "+lv.L[0]+" 0) "+lv.L[0]+" 0))")
+					} else if c, ok := bo.Y.(*ssa.Const); ok {
+						cv := fx.constVal(c)
+						e.assume(st, "(< "+cur[0]+" (ite (> "+cv.L[0]+" 0) "+cv.L[0]+" 0))")
+					}
+				}
+			}
 		}
 	}
 	// 4. assume invariants
@@ -383,7 +394,7 @@ func (fx *FnExec) execLoop(li *loopInfo) {
 		}
 		for _, inv := range lc.invs {
 			g := fx.evalSpecBool(inv.Expr, bs, fx.old, li)
-			e.addObl("contract", fmt.Sprintf("loop%d:inv%s:preserve", li.ord, inv.labelStr()), inv.Tags, bs, g, li.header.Instrs[0].Pos())
+			e.addObl("contract", fmt.Sprintf("loop%d:inv%s:preserve", li.ord, inv.labelStr()), fx.clauseTags(inv), bs, g, li.header.Instrs[0].Pos())
 		}
 		switch {
 		case lc.blocking:
@@ -391,7 +402,7 @@ func (fx *FnExec) execLoop(li *loopInfo) {
 		case lc.dec != nil:
 			v0 := fx.evalSpecInt(lc.dec.Expr, head, fx.old, li)
 			v1 := fx.evalSpecInt(lc.dec.Expr, bs, fx.old, li)
-			e.addObl("term", fmt.Sprintf("decreases:loop%d", li.ord), []string{"C06"}, bs, and("(< "+v1+" "+v0+")", "(>= "+v0+" 0)"), li.header.Instrs[0].Pos())
+			e.addObl("term", fmt.Sprintf("decreases:loop%d", li.ord), e.autoTags("term", fx.fn), bs, and("(< "+v1+" "+v0+")", "(>= "+v0+" 0)"), li.header.Instrs[0].Pos())
 		case li.rng != nil:
 			// map range: terminates when the body does not insert into the ranged map (finite maps)
 			mt := li.rng.X.Type().Underlying()
@@ -403,15 +414,15 @@ func (fx *FnExec) execLoop(li *loopInfo) {
 				ks, _ := e.mapSorts(m)
 				ok = fmt.Sprintf("(forall ((k!q %s)) (=> (select %s k!q) (select %s k!q)))", ks, d1, d0)
 			}
-			e.addObl("term", fmt.Sprintf("maprange:loop%d", li.ord), []string{"C06"}, bs, ok, li.header.Instrs[0].Pos())
+			e.addObl("term", fmt.Sprintf("maprange:loop%d", li.ord), e.autoTags("term", fx.fn), bs, ok, li.header.Instrs[0].Pos())
 		case li.idxAlloc != nil:
 			// slice range: index strictly increases towards a fixed length: structural
 			if !termDone {
-				e.addObl("term", fmt.Sprintf("slicerange:loop%d", li.ord), []string{"C06"}, bs, "true", li.header.Instrs[0].Pos())
+				e.addObl("term", fmt.Sprintf("slicerange:loop%d", li.ord), e.autoTags("term", fx.fn), bs, "true", li.header.Instrs[0].Pos())
 				termDone = true
 			}
 		default:
-			o := e.addObl("term", fmt.Sprintf("decreases:loop%d", li.ord), []string{"C06"}, bs, "false", li.header.Instrs[0].Pos())
+			o := e.addObl("term", fmt.Sprintf("decreases:loop%d", li.ord), e.autoTags("term", fx.fn), bs, "false", li.header.Instrs[0].Pos())
 			if o != nil {
 				o.Static = "loop has no decreases clause and is not declared blocking"
 			}
@@ -422,6 +433,12 @@ func (fx *FnExec) execLoop(li *loopInfo) {
 // execBlock executes the instructions of b.
 func (fx *FnExec) execBlock(b *ssa.BasicBlock, st *State, loop *loopInfo) {
 	e := fx.e
+	if e.w.opts.ReachBlocks && fx.isTop && e.suppress == 0 && len(b.Instrs) > 0 {
+		if o := e.addObl("reach", fmt.Sprintf("block:%s", b.Comment), e.autoTags("reach", fx.fn), st, "true", b.Instrs[0].Pos()); o != nil {
+			o.Reach = true
+			o.Static = ""
+		}
+	}
 	for _, in := range b.Instrs {
 		if st.pc == "false" {
 			return
@@ -459,6 +476,12 @@ func (fx *FnExec) execBlock(b *ssa.BasicBlock, st *State, loop *loopInfo) {
 			}
 			fx.rets = append(fx.rets, st)
 			fx.retVals = append(fx.retVals, rv)
+			if fx.isTop {
+				if o := e.addObl("reach", fmt.Sprintf("return:%s", e.exprText(fx.fn, in.Pos())), e.autoTags("reach", fx.fn), st, "true", in.Pos()); o != nil {
+					o.Reach = true
+					o.Static = ""
+				}
+			}
 			return
 		case *ssa.Panic:
 			e.addObl("nopanic", "panic:"+e.exprText(fx.fn, in.Pos()), fx.tagsNoPanic(), st, "false", in.Pos())
